@@ -336,6 +336,7 @@ func propC03() *PropSpec {
 			js = append(js, jobsN("html", "VerifHTMLText", pick(rng(1, 2), rng(1, 2)), "T1<X>T2</X>T3 for 13 element kinds, KeepWhitespace/KeepEndTags symbolic: rendered word sequence")...)
 			js = append(js, jobsN("html", "VerifHTMLPre", pick(rng(0, 3), rng(0, 5)), "pre/textarea content untouched")...)
 			js = append(js, jobsN("html", "VerifHTMLTree", pick(rng(1, 3), rng(1, 4)), "conforming trees built by n symbolic actions over 13 element kinds + text + comments; reference tree builder on input and output")...)
+			js = append(js, jobsN("html", "VerifHTMLTreeWitness", []int{0}, "recorded witnesses of known findings of the tree harness")...)
 			js = append(js, jobsN("html", "VerifHTMLStartTags", []int{0}, "html/head/body/colgroup start tags with and without attributes")...)
 			js = append(js, Job{Pkg: "html", Fn: "VerifHTMLTwin", N: 0, ExpectFail: true, Desc: "vacuity twin"})
 			return js
@@ -393,6 +394,7 @@ func propC01() *PropSpec {
 				return b
 			}
 			js = append(js, jobsN("js", "VerifJSString", pick(rng(0, 4), rng(0, 5)), "string literal body of n bytes over the escape alphabet, both quotes, allowTemplate symbolic")...)
+			js = append(js, jobsN("js", "VerifJSStringWitness", []int{0}, "recorded witnesses of known findings of the string kernel")...)
 			js = append(js, jobsN("js", "VerifJSStringUnits", pick(rng(1, 2), rng(1, 3)), "string literal body of n units out of 36 escapes/quotes/digits")...)
 			js = append(js, jobsN("js", "VerifJSFalsyHex", pick(rng(1, 5), rng(1, 7)), "isFalsy(0x<n hex digits>)")...)
 			js = append(js, jobsN("js", "VerifJSFalsyLiteral", pick(rng(1, 5), rng(1, 7)), "isFalsy of decimal/binary/octal/string literals of n bytes under negations")...)
@@ -405,6 +407,9 @@ func propC01() *PropSpec {
 			js = append(js, jobsN("js", "VerifJSNested", pick([]int{0}, rng(0, 3)), "x=(C?X:Y) / (X&&Y) / (X||Y) / !(X??Y) with one operand of depth 1: grouping inside the rewrites")...)
 			js = append(js, Job{Pkg: "js", Fn: "VerifJSLitTwin", N: 0, ExpectFail: true, Desc: "vacuity twin (kernels)"})
 			js = append(js, Job{Pkg: "js", Fn: "VerifJSEvalTwin", N: 0, ExpectFail: true, Desc: "vacuity twin (evaluator)"})
+			js = append(js, jobsN("js", "VerifJSIndexKey", pick(rng(1, 4), rng(1, 6)), "x=a[\"K\"], K = n bytes over digits . e -: written as a number only when K is the canonical string of that number")...)
+			js = append(js, jobsN("js", "VerifJSObjectKey", pick(rng(1, 3), rng(1, 5)), "x={\"K\":1}: same for object literal keys")...)
+			js = append(js, jobsN("js", "VerifJSNullish", []int{0}, "21 nullish / optional-chaining / optional-call patterns: same behaviour on symbolic parameter values (also C16)")...)
 			js = append(js, jobsN("js", "VerifJSArith", pick([]int{1, 2}, []int{1, 2, 3}), "x = T1 o1 T2 .. with operands a / numbers / digit strings, operators + - *, optional parentheses; reference ToNumber/ToString arithmetic")...)
 			js = append(js, jobsN("js", "VerifJSCallOrder", []int{0, 1}, "host calls inside 52 expression wrappers x 18 statement contexts, and in parameter defaults / declaration lists: never dropped, duplicated or reordered")...)
 			return js
@@ -428,7 +433,7 @@ func propC16() *PropSpec {
 				}
 				return b
 			}
-			js = append(js, jobsN("js", "VerifJSNullish", []int{0}, "14 nullish/optional-chaining/Math.pow patterns x 6 target versions: no ?. ?? ** below their version, same behaviour")...)
+			js = append(js, jobsN("js", "VerifJSNullish", []int{0}, "21 nullish/optional-chaining/optional-call/Math.pow patterns x 6 target versions: no ?. ?? ** below their version, same behaviour")...)
 			js = append(js, jobsN("js", "VerifJSVersion", pick([]int{1}, []int{1}), "x=E (depth 1) for targets ES5/2019/2020")...)
 			js = append(js, jobsN("html", "VerifHTMLKeepDefaults", []int{0}, "14 default-valued attributes x quoting x case x KeepDefaultAttrVals/KeepQuotes/KeepEndTags/KeepWhitespace/KeepDocumentTags")...)
 			js = append(js, jobsN("html", "VerifHTMLKeepTags", []int{0}, "KeepDocumentTags / KeepEndTags / KeepComments on document templates")...)
